@@ -62,6 +62,8 @@ RULE = ("cases: the real Tuner.run() with random StoppingCriterion combinations 
 
 def gen_cases(rng, tier):
     n = 120 if tier == "quick" else 2500
+    for _ in range(16 if tier == "quick" else 200):
+        yield loop.gen_sim_combined(rng, tier)
     for _ in range(n):
         spec = loop.gen_spec(rng, tier)
         if rng.random() < 0.35 and spec.get("inject") is None:
